@@ -145,9 +145,14 @@ func goTestOverlay(repo, pkgDir, fileName, src, testName, scratch string) (strin
 	ob, _ := json.Marshal(ov)
 	ovf := filepath.Join(scratch, "ov_"+sanitize(pkgDir)+".json")
 	os.WriteFile(ovf, ob, 0o644)
-	ctx, cancel := context.WithTimeout(context.Background(), 180*time.Second)
+	// the thorough tier of the bounded stand-ins runs for minutes (BS4: 40 histories of 60 transactions with reopens)
+	limit, tlimit := 180*time.Second, "120s"
+	if os.Getenv("VERIF_TIER") == "thorough" {
+		limit, tlimit = 2400*time.Second, "2300s"
+	}
+	ctx, cancel := context.WithTimeout(context.Background(), limit)
 	defer cancel()
-	cmd := exec.CommandContext(ctx, "go", "test", "-tags", "verif", "-overlay", ovf, "-vet=off", "-count=1", "-timeout", "120s", "-run", "^"+testName+"$", "./"+pkgDir)
+	cmd := exec.CommandContext(ctx, "go", "test", "-tags", "verif", "-overlay", ovf, "-vet=off", "-count=1", "-timeout", tlimit, "-run", "^"+testName+"$", "./"+pkgDir)
 	cmd.Dir = repo
 	cmd.Env = append(os.Environ(), "GOFLAGS=-mod=mod", "GOPROXY=off", "GOSUMDB=off", "GOTOOLCHAIN=local")
 	var buf bytes.Buffer
